@@ -257,31 +257,38 @@ Definition norm_cond (w : Z) (ci cj : Z) : bool :=
   (((ci <=? hp) || (hmm <=? ci)) && ((1 <? cj) || (cj <? neg_one w)))
   || (((1 <? ci) && (ci <? neg_one w)) && ((cj <=? hp) || (hmm <=? cj))).
 
+(** the inner loop over the earlier parts [others] with the same reduced variable list as part [i] *)
+Definition phase2_inner (w : Z) (i : nat) (others : list nat) (pn : expr * bool) : expr * bool :=
+  fold_left (fun pn j =>
+    let ps := fst pn in
+    if norm_cond w (coef_at ps i) (coef_at ps j) then
+      let ni := wadd w (coef_at ps i) (half_mod w) in
+      let nj := wadd w (coef_at ps j) (half_mod w) in
+      (upd_coef j nj (upd_coef i ni ps), snd pn || (ni =? 0) || (nj =? 0))
+    else pn) others pn.
+
+Definition phase2_step (w : Z) (st : expr * list (list Z * list nat) * bool) (i : nat)
+  : expr * list (list Z * list nat) * bool :=
+  let parts := fst (fst st) in
+  let by_red := snd (fst st) in
+  let need := snd st in
+  if (length (vars_at parts i) =? 0)%nat then st
+  else
+    let key := dedup (vars_at parts i) in
+    match assoc_l key by_red with
+    | Some others =>
+        let r := phase2_inner w i others (parts, need) in
+        (fst r, assoc_l_push key i by_red, snd r)
+    | None => (parts, assoc_l_push key i by_red, need)
+    end.
+
 Definition norm_phase2 (w : Z) (a : expr) : expr :=
   let hm := half_mod w in
   let hp := wadd w hm 1 in
   let hmm := wadd w hm (neg_one w) in
   if existsb (fun p => negb (length (snd p) =? 0)%nat && ((fst p <=? hp) || (hmm <=? fst p))) a then
-    let '(parts, _, need) :=
-      fold_left (fun st i =>
-        let '(parts, by_red, need) := st in
-        if (length (vars_at parts i) =? 0)%nat then st
-        else
-          let key := dedup (vars_at parts i) in
-          match assoc_l key by_red with
-          | Some others =>
-              let '(parts', need') :=
-                fold_left (fun pn j =>
-                  let '(ps, nd) := pn in
-                  if norm_cond w (coef_at ps i) (coef_at ps j) then
-                    let ni := wadd w (coef_at ps i) hm in
-                    let nj := wadd w (coef_at ps j) hm in
-                    (upd_coef j nj (upd_coef i ni ps), nd || (ni =? 0) || (nj =? 0))
-                  else pn) others (parts, need) in
-              (parts', assoc_l_push key i by_red, need')
-          | None => (parts, assoc_l_push key i by_red, need)
-          end) (seq 0 (length a)) (a, [], false) in
-    if need then filter nonzero parts else parts
+    let r := fold_left (phase2_step w) (seq 0 (length a)) (a, [], false) in
+    if snd r then filter nonzero (fst (fst r)) else fst (fst r)
   else a.
 
 Definition e_normalize (w : Z) (a : expr) : expr :=
@@ -349,3 +356,10 @@ Definition e_symb_evaluate (w : Z) (a : expr) (func : Z -> option expr) : option
           end
       end
   end.
+
+(** ** shape predicates assumed by the `_partial` decomposition theorems (boolean versions,
+    evaluated on every expression the correspondence run reaches) *)
+Definition singles_unique_b (v : Z) (a : expr) : bool := (length (filter (is_single v) a) <=? 1)%nat.
+Definition const_first_b (a : expr) : bool := forallb (fun p => negb (length (snd p) =? 0)%nat) (tl a).
+Definition shape_ok_b (a : expr) : bool :=
+  const_first_b a && forallb (fun v => singles_unique_b v a) (e_variables a).
